@@ -55,6 +55,10 @@ pub enum Op {
     /// Fault: the kernel refuses this pin (`sched_setaffinity` fails). Whether the library panics
     /// or not, the thread's pin state and every later answer must be as if the call never happened.
     PinFails { t: usize, h: usize, ids: Vec<u32>, eperm: bool },
+    /// Thread `t` creates `n` further (small, fake) hardware instances, pins itself through each,
+    /// and drops them one by one in `drop_order`; after every drop the survivors must still say
+    /// "pinned", and afterwards the scenario's own instances must answer as before (`h` is unused).
+    TempInstances { t: usize, h: usize, n: u8, drop_order: Vec<u8> },
 }
 
 #[derive(Clone, Debug, Serialize, Deserialize)]
@@ -210,7 +214,7 @@ impl Scenario for PinScenario {
         let mut last = (0_usize, 0_usize);
         for _ in 0..n_ops {
             let (t, h) = if rng.chance(1, 2) { last } else { (rng.below_usize(threads), rng.below_usize(n_hw)) };
-            let op = match rng.weighted(&[35, 45, 10, 10, if faulty && !fake { 8 } else { 0 }]) {
+            let op = match rng.weighted(&[35, 45, 10, 10, if faulty && !fake { 8 } else { 0 }, 4]) {
                 0 => {
                     last = (t, h);
                     Op::Pin { t, h, ids: gen_set(rng, &hws[h]), via_filter: rng.chance(1, 3) }
@@ -222,7 +226,13 @@ impl Scenario for PinScenario {
                 },
                 2 => Op::SpawnThread { t, h, ids: gen_set(rng, &hws[h]) },
                 3 => Op::SpawnThreads { t, h, ids: gen_set(rng, &hws[h]) },
-                _ => Op::PinFails { t, h, ids: gen_set(rng, &hws[h]), eperm: rng.bool() },
+                4 => Op::PinFails { t, h, ids: gen_set(rng, &hws[h]), eperm: rng.bool() },
+                _ => {
+                    let n = rng.range(2, 4) as u8;
+                    let mut order: Vec<u8> = (0..n).collect();
+                    rng.shuffle(&mut order);
+                    Op::TempInstances { t, h, n, drop_order: order }
+                }
             };
             ops.push(op);
         }
@@ -256,7 +266,7 @@ impl Scenario for PinScenario {
             c.hws.remove(0);
             for op in &mut c.ops {
                 match op {
-                    Op::Pin { h, .. } | Op::Query { h, .. } | Op::SpawnThread { h, .. } | Op::SpawnThreads { h, .. } | Op::PinFails { h, .. } => {
+                    Op::Pin { h, .. } | Op::Query { h, .. } | Op::SpawnThread { h, .. } | Op::SpawnThreads { h, .. } | Op::PinFails { h, .. } | Op::TempInstances { h, .. } => {
                         *h = if *h == 0 { usize::MAX } else { *h - 1 };
                     }
                 }
@@ -266,7 +276,7 @@ impl Scenario for PinScenario {
         for (i, op) in self.ops.iter().enumerate() {
             let ids = match op {
                 Op::Pin { ids, .. } | Op::SpawnThread { ids, .. } | Op::SpawnThreads { ids, .. } | Op::PinFails { ids, .. } => ids,
-                Op::Query { .. } => continue,
+                Op::Query { .. } | Op::TempInstances { .. } => continue,
             };
             if ids.len() > 1 {
                 for smaller in simkit::shrink::remove_chunks(ids) {
@@ -276,7 +286,7 @@ impl Scenario for PinScenario {
                     let mut c = self.clone();
                     match &mut c.ops[i] {
                         Op::Pin { ids, .. } | Op::SpawnThread { ids, .. } | Op::SpawnThreads { ids, .. } | Op::PinFails { ids, .. } => *ids = smaller,
-                        Op::Query { .. } => {}
+                        Op::Query { .. } | Op::TempInstances { .. } => {}
                     }
                     out.push(c);
                 }
@@ -329,6 +339,7 @@ impl Scenario for PinScenario {
                 Op::SpawnThread { ids, .. } => 6 + ids.len(),
                 Op::SpawnThreads { ids, .. } => 6 + ids.len(),
                 Op::PinFails { ids, .. } => 5 + ids.len(),
+                Op::TempInstances { n, .. } => 4 + usize::from(*n),
             })
             .sum();
         let hws: usize = self
@@ -823,7 +834,7 @@ impl Runner {
         let mut nontrivial = false;
         for (i, op) in s.ops.iter().enumerate() {
             let (t, h) = match op {
-                Op::Pin { t, h, .. } | Op::Query { t, h, .. } | Op::SpawnThread { t, h, .. } | Op::SpawnThreads { t, h, .. } | Op::PinFails { t, h, .. } => (*t, *h),
+                Op::Pin { t, h, .. } | Op::Query { t, h, .. } | Op::SpawnThread { t, h, .. } | Op::SpawnThreads { t, h, .. } | Op::PinFails { t, h, .. } | Op::TempInstances { t, h, .. } => (*t, *h),
             };
             if t >= self.tids.len() || h >= self.hws.len() {
                 continue; // dangling after shrinking
@@ -865,6 +876,50 @@ impl Runner {
                     nontrivial |= ids.len() >= 2 || ids.iter().any(|x| *x >= 64);
                     self.probe_set(ctx, h, &ids);
                     self.sweep(&what, Some((t, &own)), true)?;
+                }
+                Op::TempInstances { n, drop_order, .. } => {
+                    let n = usize::from(*n).clamp(2, 4);
+                    let order: Vec<usize> = drop_order.iter().map(|d| usize::from(*d) % n).collect();
+                    let what = format!("op {i}: thread {t} creates {n} more instances, pins through each, drops them in order {order:?}");
+                    let all = self.hws.clone();
+                    let (bad, own) = exec(&self.coord, t, move || {
+                        let mut temps: Vec<Option<SystemHardware>> = (0..n)
+                            .map(|_| {
+                                let b = HardwareBuilder::new()
+                                    .processor(ProcessorBuilder::new().id(0).memory_region(0).efficiency_class(EfficiencyClass::Performance))
+                                    .processor(ProcessorBuilder::new().id(1).memory_region(0).efficiency_class(EfficiencyClass::Performance));
+                                Some(SystemHardware::fake(b))
+                            })
+                            .collect();
+                        for hw in temps.iter().flatten() {
+                            hw.all_processors().filter(|p| p.id() == 0).expect("processor 0 exists").pin_current_thread_to();
+                        }
+                        let mut bad: Vec<(usize, usize, bool, bool)> = Vec::new();
+                        for d in order {
+                            if let Some(hw) = temps[d].take() {
+                                drop(hw);
+                                for (k, s) in temps.iter().enumerate() {
+                                    if let Some(s) = s {
+                                        let (pp, rp) = (s.is_thread_processor_pinned(), s.is_thread_memory_region_pinned());
+                                        if !pp || !rp {
+                                            bad.push((d, k, pp, rp));
+                                        }
+                                    }
+                                }
+                            }
+                        }
+                        drop(temps);
+                        (bad, flags_of(&all))
+                    })?;
+                    ctx.event_str(&what);
+                    ctx.probe("further-instances-created-and-dropped-on-a-pinned-thread");
+                    check!(
+                        bad.is_empty(),
+                        "pin-state-wrong",
+                        "{what}: after dropping instance #d, surviving instance #k (pinned to its processor 0 on this thread) said                          processor-pinned/region-pinned = (d, k, pp, rp): {bad:?}"
+                    );
+                    nontrivial = true;
+                    self.sweep(&what, Some((t, &own)), false)?;
                 }
                 Op::PinFails { ids, eperm, .. } => {
                     let ids = valid(ids);
